@@ -286,6 +286,15 @@ func (x *Exec) model(st *State, fr *Frame, in *ssa.Call, callee *ssa.Function, a
 	case name == "strconv.ParseFloat", name == "strconv.ParseInt", name == "strconv.Atoi", name == "strconv.ParseUint":
 		used()
 		return x.fresh(st, rt, "pf"), true
+	case name == "strconv.AppendFloat" && len(args) == 5:
+		used()
+		// appends the text strconv produces for (f, fmt, prec, bitSize): 1..400
+		// bytes that are an uninterpreted function of those arguments
+		fs := x.te.FloatSort()
+		x.S.DeclareFun("uf_fmtlen", []string{fs, "Int", "Int", "Int"}, "Int")
+		x.S.DeclareFun("uf_fmtbyte", []string{fs, "Int", "Int", "Int", "Int"}, "Int")
+		key := a(1) + " " + a(2) + " " + a(3) + " " + a(4)
+		return x.appendContent(st, args[0], rt, 1, 400, "(uf_fmtlen "+key+")", func(i string) string { return "(uf_fmtbyte " + key + " " + i + ")" }), true
 	case name == "strconv.AppendFloat", name == "strconv.AppendInt", name == "strconv.AppendQuote":
 		used()
 		// appends at least one byte of unknown content
@@ -354,10 +363,19 @@ func (x *Exec) sameFloat(a, b string) string {
 
 // appendUnknown models appending between lo and hi bytes of unknown content.
 func (x *Exec) appendUnknown(st *State, dst Val, rt types.Type, lo, hi int) Val {
+	return x.appendContent(st, dst, rt, lo, hi, "", nil)
+}
+
+// appendContent: as appendUnknown, with the number of bytes and the bytes
+// themselves given by terms (when lenT / byteAt are set).
+func (x *Exec) appendContent(st *State, dst Val, rt types.Type, lo, hi int, lenT string, byteAt func(i string) string) Val {
 	s := x.term(dst)
 	bt := types.Typ[types.Uint8]
 	k := x.S.Const("ak", "Int")
 	x.assume(st, fmt.Sprintf("(and (<= %d %s) (<= %s %d))", lo, k, k, hi))
+	if lenT != "" {
+		x.assume(st, "(= "+k+" "+lenT+")")
+	}
 	nl := x.S.Define("al", "Int", "(+ (s_len "+s+") "+k+")")
 	fits := x.S.Define("fits", "Bool", "(<= "+nl+" (s_cap "+s+"))")
 	nreg := x.newRegion(st, nil)
@@ -374,6 +392,11 @@ func (x *Exec) appendUnknown(st *State, dst Val, rt types.Type, lo, hi int) Val 
 		q, doff, q, doff, nl, inner, q, h, dreg, q,
 		inner, q, inner, q)
 	x.assume(st, fmt.Sprintf("(forall ((%s Int)) (! %s :pattern ((select %s %s))))", q, body, inner, q))
+	if byteAt != nil {
+		q2 := x.S.Fresh("qc")
+		x.assume(st, fmt.Sprintf("(forall ((%s Int)) (! (=> (and (<= (+ %s (s_len %s)) %s) (< %s (+ %s %s))) (= (select %s %s) %s)) :pattern ((select %s %s))))",
+			q2, doff, s, q2, q2, doff, nl, inner, q2, byteAt("(- "+q2+" (+ "+doff+" (s_len "+s+")))"), inner, q2))
+	}
 	x.setHeap(st, bt, "(store "+h+" "+dreg+" "+inner+")")
 	rc := x.S.Define("rcap", "Int", Ite(fits, "(s_cap "+s+")", ncap))
 	return Val{S: x.S.Define("s", "Slice", "(mk_slice "+dreg+" "+doff+" "+nl+" "+rc+")"), T: rt}
